@@ -278,6 +278,8 @@ def main():
     ap.add_argument('--sample', type=int, default=0)
     ap.add_argument('--jobs', type=int, default=12)
     ap.add_argument('--max-per-file', type=int, default=0)
+    ap.add_argument('--ids', help='comma separated id prefixes (phase checks)')
+    ap.add_argument('--checks', help='override the check list, e.g. C05,C18')
     a = ap.parse_args()
     files = a.files.split(',')
     if a.phase in ('list', 'tests'):
@@ -313,6 +315,12 @@ def main():
         return
     data = json.load(open(a.inp))
     survivors = [m for m in data['survivors'] if m['file'] in files]
+    if a.ids:
+        survivors = [m for m in survivors
+                     if any(m['id'].startswith(p) for p in a.ids.split(','))]
+    if a.checks:
+        for f in CHECKS_FOR:
+            CHECKS_FOR[f] = a.checks.split(',')
     if a.sample:
         # at most --sample survivors per file, chosen by the hash of their id
         by = {}
